@@ -175,6 +175,11 @@ def r3_fast_path(repo: Repo, rep):
             if not guard[0]:
                 rep.check(R, dump(el) == "None", bw.site(p.ret_node), bw.fq, f"gradient {k} is None when not needed", dump(el)[:60], dump(el)[:60])
                 continue
+            absent = any(pol and isinstance(gg, ast.Compare) and isinstance(gg.ops[0], ast.Is) and dump(gg.comparators[0]) == "None" and "saved_tensors" in dump(gg.left) or
+                         (pol and dump(gg) == f"{inputs[k]} is None") for gg, pol, kk in p.guards)
+            if dump(el) == "None" and absent:
+                rep.ok(R, bw.site(p.ret_node), bw.fq, f"gradient {k}: the input is absent on this path", "None")
+                continue
             names = set()
             for n in ast.walk(el):
                 if isinstance(n, ast.Name):
